@@ -867,6 +867,43 @@ def rule_maskcount(ctx):
     return res.finish(2)
 
 
+def rule_descent(ctx):
+    """A prediction is the label of the *leaf* the sample falls into.  A descent written as a counted loop with a constant
+    number of rounds stops at an inner node of any deeper tree (one split per sample gives depth n - 1 on sorted data) and
+    returns that node's own majority label."""
+    from .c17 import for_loops
+    res = RuleResult("R-C14-descent", "make_prediction descends until a leaf: no counted loop with a constant bound")
+    F = ctx.facts()
+    fns = [f for f in F.all_fns() if f["d"]["krate"] == "linfa_trees" and f["d"]["name"] == "make_prediction"]
+    if not fns:
+        res.missing_anchor("make_prediction")
+    for fn in fns:
+        c = fn["crate"]
+        r = Render(c)
+        key = fn_key(fn)
+        res.instance(key)
+        bad = None
+        for it, pat, body, node in for_loops(fn["body"]):
+            rng = peel_refs(it)
+            while rng.get("k") in ("Paren", "DropTemps") or (rng.get("k") == "Call" and len(rng["args"]) == 1):
+                rng = peel_refs(rng["e"] if rng.get("k") != "Call" else rng["args"][0])
+            if rng.get("k") != "Struct":
+                continue
+            end = next((f_["e"] for f_ in rng.get("fields") or [] if f_["name"] == "end"), None)
+            if end is None:
+                continue
+            e0 = peel_refs(end)
+            const = e0.get("k") == "Lit" or (e0.get("k") == "Path" and "local" not in e0 and str((c.dfn(e0.get("def")) or {}).get("kind", "")).startswith(("Const", "AssocConst")))
+            descends = any(y.get("k") == "Assign" for y in walk(body)) and any(y.get("k") == "Field" and y["name"] in ("left_child", "right_child") for y in walk(body))
+            if const and descends:
+                bad = (node, end)
+        if bad:
+            res.violate("%s : descent-capped:%s" % (key, r.e(bad[1])[:20]), "the walk from the root takes at most `%s` steps: in a deeper tree (depth is bounded by max_depth, or by the number of samples) it stops at an inner node and returns that node's label, not the leaf's" % r.e(bad[1])[:20], fn_loc(fn, bad[0].get("ln")))
+        else:
+            res.ok()
+    return res.finish(1)
+
+
 def rule_sidepair(ctx):
     """The sweep moves each sample's weight from the right side to the left: `left += w; right -= w`.  Both running totals
     belong to one sweep - one feature - and are set up together.  One of them declared outside the per-feature loop carries
@@ -989,4 +1026,4 @@ def rules(tier):
             precision.make_rule("R-C14-precision", lambda f: f["d"]["krate"] == "linfa_trees", 40, "linfa-trees"),
             carry.make_accessor_rule("R-C14-accessor", {"linfa_trees"}, 4), carry.make_ctor_rule("R-C14-ctor", {"linfa_trees"}, 1), rule_sampleindex, rule_maskcount,
             # the limits that reach the fit are the ones the caller set: `check` hands the checked set on unchanged
-            c04.rule_same, rule_midpoint, rule_sidepair]
+            c04.rule_same, rule_midpoint, rule_sidepair, rule_descent]
